@@ -22,7 +22,7 @@ PROJ = {
     "C13": ["body"],
     "C14": ["ret", "body", "m+", "m-", "qc", "qr", "applied"],
     "C15": ["body", "qa", "qt", "canary"],
-    "C16": ["body", "ql", "qt", "qa"],
+    "C16": ["body", "accessor-mismatch", "ql", "qt", "qa"],
     "C17": ["sc"],
     "C18": ABORTS + ["drop", "body", "qt", "qx", "send"],
 }
